@@ -550,7 +550,7 @@ func runCrashCase(r *mon.Run, self, bin string, c crashCase, root string, stats 
 	// 4. later starts
 	var d driver = inproc{r: r}
 	if c.later == "binary" {
-		d = binary{r, bin, home}
+		d = binary{r: r, path: bin, home: home}
 	}
 	for k := 0; k < laterStarts; k++ {
 		r.Count("crash_later_starts", 1)
